@@ -38,7 +38,7 @@ func runC06(c *core.Ctx) {
 	routerRecv := c.Func("bus", "Router", "Receive")
 	handle := c.Func("bus", "server", "handle")
 	capMap := c.Named("bus", "CapabilityMap")
-	chanCap := c.Field("bus", "channel", "capability")
+	chanCap := fld(c, "bus", "channel", "capability")
 	if firewall == nil || routerRecv == nil || handle == nil || capMap == nil || chanCap == nil {
 		c.Undecided("C06.gate", "anchors", token.NoPos, "firewall / Router.Receive / server.handle / CapabilityMap / channel.capability not found")
 		return
@@ -112,7 +112,7 @@ func runC06(c *core.Ctx) {
 		c.Fail("C06.gate", "Router.Receive-call", routerRecv.Pos(), "no call of Router.Receive found: connection traffic reaches services some other way")
 	}
 	// nothing else feeds services from a connection: ServiceReceiver.Receive / Router.services only used by Router
-	servicesF := c.Field("bus", "Router", "services")
+	servicesF := fld(c, "bus", "Router", "services")
 	for _, fn := range bus {
 		for _, acc := range fieldAccesses(fn, servicesF) {
 			if acc.fresh {
